@@ -33,6 +33,9 @@ def rand_molecule(rng, big=False):
     else:
         n = rng.choice([1, 1, 2, 2, 3, 3, 4, 4, 5, 5, 6, 6, 7, 8, 9, 10, 11, 12, 13, 14])
     atoms = []
+    # "lattice" molecules take coordinates from a tiny grid with signed zeros, so
+    # that atoms of different molecules often sit at numerically equal positions
+    lattice = rng.random() < 0.25 and n <= 20
     # "rich" molecules carry many labels, so that several labels meet on one atom
     rich = rng.random() < 0.3
     p_mass, p_rad, p_chg = (0.35, 0.35, 0.3) if rich else (0.06, 0.06, 0.08)
@@ -42,13 +45,15 @@ def rand_molecule(rng, big=False):
         u = rng.random()
         if u < p_mass:
             a["mass"] = rng.randint(1, 260)
-        elif u < p_mass + 0.04 and sym == "H":
+        elif u < p_mass + (0.3 if rich else 0.04) and sym == "H":
             a["sym"] = rng.choice(["D", "T"])
         if rng.random() < p_rad:
             a["rad"] = rng.randint(1, 3)
         if rng.random() < p_chg:
             a["chg"] = rng.choice([-3, -2, -1, 1, 2, 3])
         atoms.append(a)
+    if lattice:
+        _lattice_coords(atoms, rng)
     ncomp = 1 if n < 3 or rng.random() < 0.75 else rng.randint(2, min(3, n))
     comp = [rng.randrange(ncomp) for _ in range(n)]
     bonds = {}
@@ -66,6 +71,54 @@ def rand_molecule(rng, big=False):
     rng.shuffle(blist)
     blist = [((a, b) if rng.random() < 0.5 else (b, a), t) for (a, b), t in blist]
     return {"atoms": atoms, "bonds": blist}
+
+
+_GRID = [-1.5, -0.0, 0.0, 0.0, 1.5, 3.0]
+
+
+def _lattice_coords(atoms, rng):
+    seen = set()
+    for a in atoms:
+        for _ in range(200):
+            t = (rng.choice(_GRID), rng.choice(_GRID), rng.choice([0.0, 0.0, -0.0, 1.5]))
+            if t not in seen:  # numeric equality: -0.0 == 0.0
+                seen.add(t)
+                a["x"], a["y"], a["z"] = t
+                break
+
+
+def symmetric_molecules(rng):
+    """Small highly symmetric skeletons: stars, rings, paths, complete graphs,
+    single atoms, diatomics (retry loops, identity shuffles, symmetry ties)."""
+
+    def build(syms, bonds):
+        atoms = [{"sym": s, "x": 0.0, "y": 0.0, "z": 0.0} for s in syms]
+        if rng.random() < 0.5:
+            _lattice_coords(atoms, rng)
+        else:
+            for i, a in enumerate(atoms):
+                a["x"], a["y"], a["z"] = round(rng.uniform(-5, 5), 4) + i * 0.0001, round(rng.uniform(-5, 5), 4), 0.0
+        return {"atoms": atoms, "bonds": [((a, b), 1) for a, b in bonds]}
+
+    out = []
+    out.append(build(["He"], []))
+    out.append(build(["H", "H"], [(0, 1)]))
+    out.append(build(["H", "Cl"], [(0, 1)]))
+    out.append(build(["H", "O", "H"], [(0, 1), (2, 1)]))
+    out.append(build(["Cl", "Be", "Cl"], [(0, 1), (1, 2)]))
+    out.append(build(["N", "H", "H", "H"], [(0, 1), (0, 2), (0, 3)]))
+    out.append(build(["B", "F", "F", "F"], [(0, 1), (0, 2), (0, 3)]))
+    out.append(build(["C", "H", "H", "H", "H"], [(0, 1), (0, 2), (0, 3), (0, 4)]))
+    out.append(build(["P", "P", "P", "P"], [(0, 1), (0, 2), (0, 3), (1, 2), (1, 3), (2, 3)]))
+    out.append(build(["C", "C", "C"], [(0, 1), (1, 2), (2, 0)]))
+    k = rng.randint(4, 8)
+    out.append(build(["C"] * k, [(i, (i + 1) % k) for i in range(k)]))
+    k = rng.randint(3, 7)
+    out.append(build(["C"] * k, [(i, i + 1) for i in range(k - 1)]))
+    out.append(build(["O", "C", "O"], [(0, 1), (1, 2)]))
+    out.append(build(["Ar", "Ar", "Ar"], []))
+    out.append(build(["C", "C", "H", "H", "H", "H", "H", "H"], [(0, 1), (0, 2), (0, 3), (0, 4), (1, 5), (1, 6), (1, 7)]))
+    return out
 
 
 def redraw(mol, rng):
@@ -115,10 +168,14 @@ def render_v2000(mol, rng, name="sim"):
     na, nb = len(mol["atoms"]), len(mol["bonds"])
     use_prop_lines = rng.random() < 0.5
     L = [name, "  simgen", "", f"{na:3d}{nb:3d}  0  0  0  0  0  0  0  0999 V2000"]
-    for a in mol["atoms"]:
+    rad_in_block = set()
+    for i, a in enumerate(mol["atoms"]):
         ccc = 0
         if not use_prop_lines and "chg" in a:
             ccc = _CHG_CODE[a["chg"]]
+        elif not use_prop_lines and a.get("rad") == 2 and "chg" not in a and rng.random() < 0.5:
+            ccc = 4  # doublet radical in the atom block
+            rad_in_block.add(i)
         L.append(f"{a['x']:10.4f}{a['y']:10.4f}{a['z']:10.4f} {a['sym']:<3} 0{ccc:3d}  0  0  0  0  0  0  0  0  0  0")
     for (a, b), t in mol["bonds"]:
         L.append(f"{a + 1:3d}{b + 1:3d}{t:3d}  0  0  0  0")
@@ -128,10 +185,18 @@ def render_v2000(mol, rng, name="sim"):
             chunk = items[k : k + 8]
             L.append(f"M  {tag}{len(chunk):3d}" + "".join(f" {i:3d} {v:3d}" for i, v in chunk))
 
+    groups = []
     if use_prop_lines:
-        prop("CHG", [(i, a["chg"]) for i, a in enumerate(mol["atoms"], 1) if "chg" in a])
-    prop("RAD", [(i, a["rad"]) for i, a in enumerate(mol["atoms"], 1) if "rad" in a])
-    prop("ISO", [(i, a["mass"]) for i, a in enumerate(mol["atoms"], 1) if "mass" in a])
+        groups.append(("CHG", [(i, a["chg"]) for i, a in enumerate(mol["atoms"], 1) if "chg" in a]))
+    rads = [(i, a["rad"]) for i, a in enumerate(mol["atoms"], 1) if "rad" in a and (i - 1) not in rad_in_block]
+    if rad_in_block and rads:
+        # property lines supersede the atom block: all radicals must then be listed
+        rads = [(i, a["rad"]) for i, a in enumerate(mol["atoms"], 1) if "rad" in a]
+    groups.append(("RAD", rads))
+    groups.append(("ISO", [(i, a["mass"]) for i, a in enumerate(mol["atoms"], 1) if "mass" in a]))
+    rng.shuffle(groups)  # the format fixes no order of property lines
+    for tag, items in groups:
+        prop(tag, items)
     L.append("M  END")
     return "\n".join(L) + "\n"
 
@@ -416,6 +481,11 @@ def build_pool_molfiles(master, repo, n_corpus, n_random, n_big, n_bad):
             # a redrawing of the same skeleton in the same atom order
             rid = pool.add("T", render(redraw(mol, rng), f"sim{k}r"), pool.mol_valid, src="redrawn", of=tid)
             pool.redrawn[tid] = rid
+    for k, mol in enumerate(symmetric_molecules(rng)):
+        if rng.random() < 0.3:
+            pool.add("T", render_v2000(mol, rng, f"sym{k}"), pool.mol_valid, src="symmetric-v2000")
+        else:
+            pool.add("T", render_v3000(mol, rng, f"sym{k}"), pool.mol_valid, src="symmetric-v3000")
     for tid in list(pool.mol_valid):
         if rng.random() < 0.5:
             v = same_size_variant(pool.texts[tid], rng)
@@ -534,7 +604,11 @@ class _ClientGen:
                 site = self.rng.choice(ABORT_SITES[kind])
                 op["abort"] = {"site": list(site), "n": _loguniform(self.rng, 1, 300)}
             else:
-                op["abort"] = {"step": _loguniform(self.rng, 1, STEP_CAP[kind])}
+                # half log-uniform (early steps are dense in distinct code), half
+                # uniform up to a cap that is sometimes the cold-cache length
+                cap = STEP_CAP[kind] * (1 if self.rng.random() < 0.7 else 3)
+                k = _loguniform(self.rng, 1, cap) if self.rng.random() < 0.5 else self.rng.randint(1, cap)
+                op["abort"] = {"step": k}
         if self.faulty and kind == "read_file" and self.rng.random() < 0.35:
             at = self.rng.choice(["open", "open", "read", "short"])
             op["io_fault"] = {"at": at, "err": self.rng.choice(["ENOENT", "EACCES", "EIO", "EMFILE"]), "frac": self.rng.random()}
